@@ -48,10 +48,25 @@ def run(idx, rep, tier):
             n_methods += 1
             construct = f"{ci.name}.{mname}"
             loc = idx.loc(m.module, m.node)
+            x = m.params[1]
+            dt = DType(idx, x)
+            for r_ in df.returns(m.node):
+                if r_.value is not None:
+                    dt.eval_in(m, r_.value)
+            # ---- clause 2b: the operand is never converted to a dtype that does not depend on it (a complex operand applied to a real
+            # operator must stay complex): every explicit cast reached from the returned value
+            seen_casts = set()
+            for node_, f_, val, tgt, lost in dt.casts:
+                if id(node_) in seen_casts or "arg" not in val:
+                    continue
+                seen_casts.add(id(node_))
+                bad = "arg" in lost
+                rep.decide(not bad, "operand-cast", f"{construct}:{len(seen_casts)}", f"`{ast.unparse(node_)[:60]}` converts the operand to a dtype typed by {sorted(tgt) or ['-']}" +
+                           ("" if not bad else ": the operand's own dtype is ignored, so the imaginary part of a complex operand applied to a real operator is silently dropped"),
+                           detail="" if not bad else "narrow", locs=[idx.loc((f_ or m).module, node_)])
             if ci.name in OPAQUE:
                 rep.note(f"{construct}: opaque ({OPAQUE[ci.name]})")
                 continue
-            x = m.params[1]
             dt = DType(idx, x)
             # ---- clause 1: in-place receivers
             n_store = 0
@@ -255,6 +270,87 @@ def run(idx, rep, tier):
                            f"primal is {sshow(v) if v is not None else '?'}; required zeros of shape (self.shape[1], {xp}.shape[0])", detail="" if ok else "shape", locs=[idx.loc(h.module, c)])
         if not found:
             rep.undecided("generic-path", "LinearOperator._rmatmat:primals", "no linear_transpose call found in the default left product")
+    # ---- blocked products: `for i in range(K)` over blocks `[i*b, (i+1)*b)` covers all N rows / columns only if K = ceil(N / b), or
+    # K = floor(N / b) and the last block is extended to the end of the array (stop None on the last iteration)
+    n_tile = 0
+    for ci in idx.operator_classes():
+        m = ci.methods.get("_matmat")
+        init = ci.methods.get("__init__")
+        if m is None or init is None:
+            continue
+        self_vals = {}
+        for st in df.body_nodes(init.node):
+            if isinstance(st, ast.Assign) and len(st.targets) == 1 and isinstance(st.targets[0], ast.Attribute) and isinstance(st.targets[0].value, ast.Name) and st.targets[0].value.id == "self":
+                self_vals[st.targets[0].attr] = st.value
+        for loop in [n for n in df.body_nodes(m.node) if isinstance(n, ast.For) and isinstance(n.target, ast.Name) and isinstance(n.iter, ast.Call) and nospace(n.iter.func) == "range"
+                     and len(n.iter.args) == 1]:
+            cnt = n_ = loop.iter.args[0]
+            if isinstance(cnt, ast.Attribute) and isinstance(cnt.value, ast.Name) and cnt.value.id == "self" and cnt.attr in self_vals:
+                cnt = self_vals[cnt.attr]
+            cnt = df.resolve_value(m.node, cnt) if isinstance(cnt, ast.Name) else cnt
+            if not (isinstance(cnt, ast.BinOp) and isinstance(cnt.op, ast.FloorDiv)):
+                continue
+            ctext = nospace(cnt)
+            is_ceil = isinstance(cnt.left, ast.BinOp) and isinstance(cnt.left.op, (ast.Add, ast.Sub)) and nospace(cnt.right) in nospace(cnt.left) or ctext.startswith("-(-")
+            i = loop.target.id
+            # slices built from the loop index in this loop's own body (not in nested loops over another index)
+            stops = []
+            for n2 in ast.walk(loop):
+                if isinstance(n2, ast.Call) and isinstance(n2.func, ast.Name) and n2.func.id == "slice" and len(n2.args) >= 2 and i in df.names_in(n2.args[0]):
+                    stops.append(df.resolve_value(m.node, n2.args[1]) if isinstance(n2.args[1], ast.Name) else n2.args[1])
+                elif isinstance(n2, ast.Slice) and n2.lower is not None and n2.upper is not None and i in df.names_in(n2.lower):
+                    stops.append(df.resolve_value(m.node, n2.upper) if isinstance(n2.upper, ast.Name) else n2.upper)
+            if not stops:
+                continue
+            n_tile += 1
+
+            def extended(e):
+                """the stop is None on the last iteration: a conditional whose None branch is guarded by a test on the loop index and the count"""
+                if isinstance(e, ast.IfExp):
+                    return (isinstance(e.body, ast.Constant) and e.body.value is None) or (isinstance(e.orelse, ast.Constant) and e.orelse.value is None)
+                if isinstance(e, ast.Name):
+                    vals = [v for v, p_, st in df.assignments(m.node).get(e.id, [])]
+                    return any(isinstance(v, ast.Constant) and v.value is None for v in vals)
+                return False
+            ext = all(extended(e) for e in stops)
+            ok = is_ceil or ext
+            rep.decide(ok, "tiling", f"{ci.name}._matmat:{nospace(loop.iter)[:30]}", f"{('ceil' if is_ceil else 'floor')}({nospace(cnt)}) blocks, last block " +
+                       ("extended to the end of the array" if ext else "of the uniform size") + ("" if ok else
+                        ": when the block size does not divide the dimension the trailing N % b rows / columns are never visited (their part of the product is dropped)"),
+                       detail="" if ok else "tail", locs=[idx.loc(m.module, loop)])
+    if not n_tile:
+        rep.note("tiling: no blocked product loop on this tree")
+    # ---- densification overrides: a class that writes its own to_dense must return the matrix its product applies (TERM: the value of
+    # to_dense against the kind's defining term read off _matmat)
+    from sa.term import TermEval, equal as tequal, has_opaque as thas_opaque, norm as tnorm, show as tshow
+    from sa.termutil import kind_def
+    n_td = 0
+    for ci in idx.operator_classes():
+        tdm = ci.methods.get("to_dense")
+        if tdm is None or ci.name == "LinearOperator":
+            continue
+        kd = kind_def(idx, ci.name, "self")
+        te_ = TermEval(idx)
+        te_.self_cls = ci
+
+        def diag_payloads(t):
+            if isinstance(t, tuple):
+                if t and t[0] == "diag" and isinstance(t[1], tuple) and t[1] and t[1][0] == "sym":
+                    yield t[1]
+                for x in t[1:]:
+                    yield from diag_payloads(x)
+        te_.vector_syms = frozenset(diag_payloads(kd)) if kd is not None else frozenset()
+        for r in [r for r in df.returns(tdm.node) if r.value is not None]:
+            n_td += 1
+            t = te_.eval_in(tdm, r.value)
+            loc_ = [idx.loc(tdm.module, r)]
+            if kd is None or thas_opaque(tnorm(t)):
+                rep.undecided("to-dense", f"{ci.name}.to_dense", f"returns {tshow(tnorm(t))[:80]}; the matrix of {ci.name}._matmat is " + (tshow(tnorm(kd)) if kd is not None else "outside the term grammar"), locs=loc_)
+                continue
+            ok = tequal(t, kd)
+            rep.decide(ok, "to-dense", f"{ci.name}.to_dense", f"returns {tshow(tnorm(t))}; {ci.name}._matmat applies {tshow(tnorm(kd))}", detail="" if ok else "mismatch", locs=loc_)
+    if not n_td:
+        rep.note("to-dense: no operator class overrides to_dense with a value in the term grammar on this tree")
     rep.floor("no-narrowing-store", 2)
     rep.floor("result-dtype", 15)
     rep.floor("generic-path", 7)
